@@ -138,6 +138,19 @@ def correspond(ctx, scale):
                 out, idx = q(zt)
             # the scalar map is a function of the float32 input alone: a module cast to another precision (its persistent state is integer
             # level data only) must quantize float32 inputs identically
+            # ... and a module that was cast to a lower precision AND BACK quantizes exactly as the module that never was (its float buffers were rounded
+            # on the way; they are derived constants, the scalar map does not read them)
+            for cast in ('half', 'bfloat16'):
+                q3 = getattr(copy.deepcopy(q), cast)().float()
+                for tr3 in (False, True):
+                    q3.train(tr3)
+                    with torch.no_grad():
+                        out3, idx3 = q3(zt)
+                    dist['cast_round_trip_sweeps'] = dist.get('cast_round_trip_sweeps', 0) + 1
+                    if not (torch.equal(idx3, idx) and torch.equal(out3, out)):
+                        failures.append({'key': f'fsq:cast-round-trip:{cast}', 'what': f'FSQ([{L}], sym={sym}).{cast}().float() (train={tr3}) quantizes {int((out3 != out).sum())} of {out.numel()} inputs to a different value '
+                                         f'than the module that was never cast (max abs diff {float((out3 - out).abs().max()):g})', 'case': dict(L=L, sym=sym, cast=cast)})
+                        break
             for cast in ('half', 'bfloat16', 'double'):
                 q2 = getattr(copy.deepcopy(q), cast)()
                 with torch.no_grad():
